@@ -149,7 +149,7 @@ int main(int argc, char *argv[])
     std::vector<size_t> edges_start, edges_end, edges_weight;
     read_adjacency_data(adjacency_filename, edges_start, edges_end, edges_weight);
     const size_t nof_vertices = utils::get_num_vertices(edges_start, edges_end);
-    const size_t nof_layers = edges_weight.size() / edges_start.size();
+    const size_t nof_layers = edges_start.empty() ? 0 : edges_weight.size() / edges_start.size();
 
     // Affinity tensor
     std::vector<double> affinity;
